@@ -26,6 +26,11 @@ class CannotEval(Exception):
     pass
 
 
+class NoAnswer(BaseException):
+    """An evaluation was stopped by the CPU-time watchdog (a library looping
+    on an input, as the code under analysis would)."""
+
+
 class Raised(Exception):
     """Evaluation of a term raises (e.g. float('x'))."""
 
